@@ -33,17 +33,18 @@ theorem inv_CONDITIONS : Inv [([], W "CONDITIONS")] "CONDITIONS".toList ["CONDIT
 theorem tokenise_toList (s : String) : tokenise s = tokenise (String.ofList s.toList) := by
   simp [tokenise]
 
-/-- thm 7 for a whole rule -/
-theorem reparse_rule (cfg : Cfg) (r : Rule) (L : List Cond) (rules : List Rule)
+/-- thm 7 for a whole rule with any distances: the regenerated text carries whole kilobases
+    (`cutoff // 1000`), so the distances come back rounded down to the kilobase -/
+theorem reparse_rule_gen (cfg : Cfg) (r : Rule) (L : List Cond) (rules : List Rule)
     (hc : r.conditions = .group false L) (hne : L ≠ []) (hn : NamesOkL L) (hs : shapeOks true L = true)
     (hr : noRepeats L = true) (hd : hasDupStr (printConds L) = false)
     (hname : classify r.name = .identifier) (hcat : classify r.category = .identifier)
     (hcats : cfg.cats.contains r.category = true) (hpos : positive r.conditions = true)
-    (hdesc : r.description = []) (hex : r.examples = [])
-    (hkc : r.cutoff % 1000 = 0) (hkn : r.neighbourhood % 1000 = 0) :
+    (hdesc : r.description = []) (hex : r.examples = []) :
     ∃ toks r', tokenise r.reconstruct = .ok toks ∧
       parseRule cfg (ofStream toks [] rules) = .ok (r', ofStream [] toks.reverse rules) ∧
-      r'.name = r.name ∧ r'.category = r.category ∧ r'.cutoff = r.cutoff ∧ r'.neighbourhood = r.neighbourhood ∧
+      r'.name = r.name ∧ r'.category = r.category ∧ r'.cutoff = r.cutoff / 1000 * 1000 ∧
+      r'.neighbourhood = r.neighbourhood / 1000 * 1000 ∧
       ∀ e g, sem e g r'.conditions = sem e g r.conditions := by
   obtain ⟨E, htop, rd⟩ := topChars_reads L hne hn hs hr hd
   have hpE := printableL_of_shape E true rd.shape
@@ -93,13 +94,27 @@ theorem reparse_rule (cfg : Cfg) (r : Rule) (L : List Cond) (rules : List Rule)
   refine ⟨_, (⟨r.name, r.category, r.cutoff / 1000 * 1000, r.neighbourhood / 1000 * 1000, Cond.group false (normL E),
     [], [], [], [], none⟩ : Rule), htok, ?_, rfl, rfl, ?_, ?_, ?_⟩
   · simpa using hparse
-  · show r.cutoff / 1000 * 1000 = r.cutoff
-    omega
-  · show r.neighbourhood / 1000 * 1000 = r.neighbourhood
-    omega
+  · rfl
+  · rfl
   · intro e g
     show sem e g (.group false (normL E)) = sem e g r.conditions
     simp only [hc, sem, Bool.false_xor]
     rw [(sem_normL e g E rd.names rd.norep).1, rd.sem]
+
+/-- thm 7 for a whole rule -/
+theorem reparse_rule (cfg : Cfg) (r : Rule) (L : List Cond) (rules : List Rule)
+    (hc : r.conditions = .group false L) (hne : L ≠ []) (hn : NamesOkL L) (hs : shapeOks true L = true)
+    (hr : noRepeats L = true) (hd : hasDupStr (printConds L) = false)
+    (hname : classify r.name = .identifier) (hcat : classify r.category = .identifier)
+    (hcats : cfg.cats.contains r.category = true) (hpos : positive r.conditions = true)
+    (hdesc : r.description = []) (hex : r.examples = [])
+    (hkc : r.cutoff % 1000 = 0) (hkn : r.neighbourhood % 1000 = 0) :
+    ∃ toks r', tokenise r.reconstruct = .ok toks ∧
+      parseRule cfg (ofStream toks [] rules) = .ok (r', ofStream [] toks.reverse rules) ∧
+      r'.name = r.name ∧ r'.category = r.category ∧ r'.cutoff = r.cutoff ∧ r'.neighbourhood = r.neighbourhood ∧
+      ∀ e g, sem e g r'.conditions = sem e g r.conditions := by
+  obtain ⟨toks, r', h1, h2, h3, h4, h5, h6, h7⟩ :=
+    reparse_rule_gen cfg r L rules hc hne hn hs hr hd hname hcat hcats hpos hdesc hex
+  exact ⟨toks, r', h1, h2, h3, h4, by omega, by omega, h7⟩
 
 end ASV.Reprint
